@@ -12,7 +12,7 @@
   (seed formulas, generators satisfy the curve equations), which guards against typing errors in
   `Spec/Standards.lean`.  Part B (`bls_*`, `bn_*`, `secp_*`) is `Gen.Consts.* = Spec.*`.
   Everything is closed-term evaluation (`decide +kernel`; no axioms beyond the kernel's GMP
-  arithmetic, no `native_decide`).  Core Lean only.
+  arithmetic).  Core Lean only.
 -/
 import PyEcc.Spec.Standards
 import PyEcc.Model.Curve
